@@ -11,13 +11,7 @@ ops:  curstep <incr 0|1> <reaction_step> <count> <equal 0|1> <n> <hex64>*n      
 namespace Driver.RK
 open PhreeqcVerif PhreeqcVerif.Util PhreeqcVerif.RK
 
-def floatParams : Params Float :=
-  let l (q : Rat) : Float := NumOps.lit q
-  { A := Gen.RKTableau.A.map (·.map l), c := Gen.RKTableau.c.map l, b := Gen.RKTableau.b.map l,
-    d := (Gen.RKTableau.dMin.zip Gen.RKTableau.dSub).map (fun p => l p.1 - l p.2), e1 := Gen.RKTableau.e1.map l, e2 := Gen.RKTableau.e2.map l, e3 := Gen.RKTableau.e3.map l,
-    safety := l Gen.RKTableau.safety, molesMax := l Gen.RKTableau.molesMax, shrinkExp := l Gen.RKTableau.shrinkExp,
-    growExp := l Gen.RKTableau.growExp, growThreshold := l Gen.RKTableau.growThreshold,
-    growFactor := l Gen.RKTableau.growFactor, tinyM := l Gen.RKTableau.tinyM, minTotal := 1e-25, zero := 0.0, one := 1.0 }
+def floatParams : Params Float := paramsOf (fun q => (NumOps.lit q : Float)) 1e-25
 
 /-- the rate family of the correspondence runs (same association of operations as the BASIC program) -/
 def rateF (ps : List (List Float)) (t : Float) (m : List Float) (h : Float) : List Float :=
